@@ -604,3 +604,127 @@ Proof.
            rewrite Hpre3, Hpre2, Hpre1, EP. unfold SB. rewrite !app_length. lia.
         -- unfold endp. rewrite Hpre3, Hpre2, Hpre1, EP, !len_app. unfold SB, len. lia.
 Qed.
+
+(* ------------------------------------------------------------------ *)
+(* SUBSCRIBE: the optional subscription identifier, then user properties *)
+Lemma loop_step_subopt fuel m will endp id0 acc d pre rest steps n :
+  sid_ok n ->
+  d = pre ++ (n2b SubscriptionID :: enc_vb n) ++ rest -> N.of_nat (length pre) < endp ->
+  getany_loop (S fuel) m will SubOpt endp id0 (mk_state acc d (length pre) steps) =
+  getany_loop fuel m will SubOpt endp SubscriptionID
+              (mk_state (set_subid acc (Some n)) d
+                        (length pre + S (length (enc_vb n))) (S (S steps))).
+Proof.
+  intros [Hn0 Hn] Hd Hend.
+  cbn [getany_loop]. unfold mk_state at 1. cbn [dpos].
+  rewrite (proj2 (N.ltb_lt _ _) Hend).
+  pose proof (get_val_encoded U8 (VN SubscriptionID) (VN id0) (mk_state acc d (length pre) steps) pre
+                              (enc_vb n ++ rest)) as G1.
+  cbn [encode enc_u8 valN canon] in G1. unfold mk_state in G1 at 1 2 3 4 5.
+  cbn [derr ddata dpos dp dsteps] in G1.
+  unfold mk_state at 1.
+  rewrite G1; [|discriminate|reflexivity|discriminate|reflexivity|rewrite Hd; reflexivity|reflexivity|cbn; lia].
+  clear G1. cbn [valN].
+  replace (SubscriptionID =? SubscriptionID) with true by reflexivity.
+  change (ddata (mk_state acc d (length pre) steps)) with d.
+  change (dpos (mk_state acc d (length pre) steps)) with (length pre).
+  change (dsteps (mk_state acc d (length pre) steps)) with steps.
+  cbn [dp]. unfold enc_u8.
+  pose proof (get_val_encoded Vb (VN n) (VN 0)
+     (with_pkt (set_subid acc (Some 0))
+        {| dp := acc; ddata := d; dpos := length pre + length [n2b SubscriptionID]; derr := None; dsteps := S steps |})
+     (pre ++ [n2b SubscriptionID]) rest) as G2.
+  cbn [derr ddata dpos dp dsteps encode valN canon with_pkt] in G2.
+  rewrite G2; clear G2.
+  - cbn [valN dp].
+    unfold with_pkt, mk_state. cbn [dp ddata dpos derr dsteps length].
+    replace (length pre + 1 + length (enc_vb n))%nat with (length pre + S (length (enc_vb n)))%nat by lia.
+    reflexivity.
+  - discriminate.
+  - exact Hn.
+  - discriminate.
+  - reflexivity.
+  - rewrite Hd. rewrite <- !app_assoc. reflexivity.
+  - rewrite app_length. reflexivity.
+  - apply (encode_nonempty Vb (VN n)); discriminate.
+Qed.
+
+Definition subopt_bytes (o : option N) : list byte :=
+  match o with None => [] | Some n => enc_prop Vb SubscriptionID (VN n) end.
+Definition subopt_ok (o : option N) : Prop := match o with None => True | Some n => sid_ok n end.
+Definition subopt_result (o : option N) (acc : pkt) : pkt :=
+  match o with None => acc | Some n => set_subid acc (Some n) end.
+
+Theorem getany_subopt (p acc : pkt) (pre rest : list byte) (steps : nat) :
+  subopt_ok (subid p) -> Forall up_ok (uprops p) ->
+  let P := subopt_bytes (subid p) ++ ups_bytes (uprops p) in
+  len P < 268435456 ->
+  let d := pre ++ enc_vb (len P) ++ P ++ rest in
+  exists steps',
+    getany [] false SubOpt (mk_state acc d (length pre) steps) =
+    Run (mk_state (append_ups false (uprops p) (subopt_result (subid p) acc)) d
+                  (length pre + length (enc_vb (len P)) + length P) steps').
+Proof.
+  intros Hso Hups P HP d.
+  assert (Hvpos : (0 < length (enc_vb (len P)))%nat) by (apply (encode_nonempty Vb (VN (len P))); discriminate).
+  unfold getany.
+  assert (Hne : at_end (mk_state acc d (length pre) steps) = false).
+  { unfold at_end, mk_state. cbn [dpos ddata]. apply Nat.eqb_neq. unfold d. rewrite !app_length. lia. }
+  rewrite Hne.
+  pose proof (get_val_encoded Vb (VN (len P)) (VN 0) (mk_state acc d (length pre) steps) pre (P ++ rest)) as G.
+  cbn [encode valN canon] in G. unfold mk_state in G at 1 2 3 4 5. cbn [derr ddata dpos dp dsteps] in G.
+  unfold mk_state at 1.
+  rewrite G; [|discriminate|exact HP|discriminate|reflexivity|reflexivity|reflexivity|exact Hvpos]. clear G.
+  cbn [valN].
+  change (ddata (mk_state acc d (length pre) steps)) with d.
+  change (dpos (mk_state acc d (length pre) steps)) with (length pre).
+  change (dsteps (mk_state acc d (length pre) steps)) with steps.
+  match goal with |- context [ {| dp := acc; ddata := d; dpos := ?q; derr := None; dsteps := ?st |} ] =>
+    change {| dp := acc; ddata := d; dpos := q; derr := None; dsteps := st |} with (mk_state acc d q st) end.
+  set (pre1 := pre ++ enc_vb (len P)).
+  assert (Hpre1 : length pre1 = (length pre + length (enc_vb (len P)))%nat) by (unfold pre1; apply app_length).
+  rewrite <- Hpre1. change (dpos (mk_state acc d (length pre1) (S steps))) with (length pre1).
+  set (endp := N.of_nat (length pre1) + len P).
+  set (ups := uprops p) in *.
+  set (SB := subopt_bytes (subid p)) in *.
+  assert (Hcount : ((match subid p with None => 0 | Some _ => 1 end) + length ups <= length P)%nat).
+  { unfold P. rewrite app_length. pose proof (ups_le ups Hups). unfold SB.
+    destruct (subid p) as [n|]; cbn [subopt_bytes length]; [|lia].
+    destruct Hso as [Hn0 _]. unfold enc_prop. cbn [is_zero valN]. rewrite (proj2 (N.eqb_neq _ _)) by lia.
+    cbn [length]. lia. }
+  assert (Hfuel : exists extra,
+     S (length d) = ((match subid p with None => 0 | Some _ => 1 end) + (length ups + S extra))%nat).
+  { exists (length d - ((match subid p with None => 0 | Some _ => 1 end) + length ups))%nat.
+    unfold d. rewrite !app_length. lia. }
+  destruct Hfuel as [extra Hfuel]. rewrite Hfuel.
+  assert (Hd1 : d = pre1 ++ SB ++ ups_bytes ups ++ rest).
+  { unfold d, pre1, P. rewrite <- !app_assoc. reflexivity. }
+  assert (Hstep1 : exists id1 st1,
+     getany_loop ((match subid p with None => 0 | Some _ => 1 end) + (length ups + S extra)) [] false SubOpt endp 0
+                 (mk_state acc d (length pre1) (S steps)) =
+     getany_loop (length ups + S extra) [] false SubOpt endp id1
+                 (mk_state (subopt_result (subid p) acc) d (length (pre1 ++ SB)) st1)).
+  { unfold SB in *. destruct (subid p) as [n|]; cbn [subopt_bytes subopt_result plus].
+    - exists SubscriptionID, (S (S (S steps))).
+      assert (Eb : enc_prop Vb SubscriptionID (VN n) = n2b SubscriptionID :: enc_vb n).
+      { destruct Hso as [Hn0 _]. unfold enc_prop. cbn [is_zero valN encode].
+        rewrite (proj2 (N.eqb_neq _ _)) by lia. reflexivity. }
+      rewrite (loop_step_subopt (length ups + S extra) [] false endp 0 acc d pre1
+                                (ups_bytes ups ++ rest) (S steps) n Hso).
+      + rewrite app_length, Eb. cbn [length]. reflexivity.
+      + rewrite Hd1. cbn [subopt_bytes]. rewrite Eb. reflexivity.
+      + unfold endp, len. lia.
+    - exists 0, (S steps). rewrite app_nil_r. reflexivity. }
+  destruct Hstep1 as [id1 [st1 E1]]. rewrite E1. clear E1.
+  set (pre2 := pre1 ++ SB).
+  assert (Hpre2 : length pre2 = (length pre1 + length SB)%nat) by (unfold pre2; apply app_length).
+  destruct (ups_loop [] false SubOpt endp eq_refl ups Hups (S extra) id1 (subopt_result (subid p) acc) d pre2 rest st1)
+    as [id2 [st2 E2]].
+  - discriminate.
+  - rewrite Hd1. unfold pre2. rewrite <- !app_assoc. reflexivity.
+  - unfold endp. rewrite Hpre2. unfold P. rewrite !len_app. unfold len. lia.
+  - rewrite E2. clear E2. cbn [getany_loop]. unfold mk_state at 1. cbn [dpos].
+    rewrite (proj2 (N.ltb_ge _ _)).
+    + exists st2. unfold mk_state. do 2 f_equal. rewrite Hpre2, Hpre1. unfold P. rewrite !app_length. lia.
+    + unfold endp. rewrite Hpre2. unfold P. rewrite !len_app. unfold len. lia.
+Qed.
